@@ -6,7 +6,7 @@ import AITB.Props.C03Refs
 import Mathlib.Tactic.IntervalCases
 import Mathlib.Tactic.NormNum
 
-namespace AITB.POMDP
+namespace AITB.POMDP3
 open AITB.MDP
 
 /-- **PBVI / PERSEUS**: if the vectors of timestep 0 are below `V0` and every vector of timestep `t+1` is the point backup of
@@ -143,4 +143,4 @@ theorem blind_fast_start_unsafe_witness :
     (∀ s, s < mC.S → ∀ a, a < mC.A → mC.R s a ≤ (1 - mC.γ) * (-16384)) := by
   decide +kernel
 
-end AITB.POMDP
+end AITB.POMDP3
